@@ -7,7 +7,8 @@
                              the distribution sampler draws from the global NumPy stream = section variable [draw])
     - [mk_dist]             DistributionSampler.__init__ : a seed re-seeds the *global* stream
     - [mkvar]               Variable.__init__  (initial_value := value at construction)
-    - [reset_vars]/[treset] Variable.reset, Perturbation.reset, Tolerancing.reset (perturbations first, then compensators)
+    - [reset_vars]/[treset] Variable.reset, Perturbation.reset, Tolerancing.reset (perturbations first, then compensators,
+                            then Optic.update())
     - [apply_pert]          Perturbation.apply
     - [fun_call]/[compensate] OptimizerGeneric._fun / _apply_solution (update every variable, then Optic.update()) folded
                             over the sequence of points at which scipy evaluates the objective followed by the returned
@@ -66,7 +67,8 @@ Section Machine.
 
   Definition reset_vars (vs : list var) (l : L) : L :=
     fold_left (fun l v => vset l (vx v) (vinit v)) vs l.
-  Definition treset (l : L) : L := reset_vars cv (reset_vars pv l).
+  (** Tolerancing.reset: perturbations, then compensators, then Optic.update() (pickups and solves re-applied) *)
+  Definition treset (l : L) : L := upd (reset_vars cv (reset_vars pv l)).
 
   Definition set_all (xs : list X) (x : list T) (l : L) : L :=
     fold_left (fun l p => vset l (fst p) (snd p)) (combine xs x) l.
@@ -190,7 +192,7 @@ Section Concrete.
 
   Definition set_rad (v : T) (s : surf) : surf :=
     match s_kind s with
-    | GPlane => mkS GStd v (ofZ 0) (s_z s) (s_dx s) (s_dy s) (s_rx s) (s_ry s) (s_cf s) (s_med s)
+    | GPlane => mkS GStd v (s_con s) (s_z s) (s_dx s) (s_dy s) (s_rx s) (s_ry s) (s_cf s) (s_med s)   (* keeps a conic given to the flat surface *)
     | k => mkS k v (s_con s) (s_z s) (s_dx s) (s_dy s) (s_rx s) (s_ry s) (s_cf s) (s_med s)
     end.
   Definition set_con (v : T) (s : surf) : surf :=
